@@ -20,7 +20,7 @@ class FaultAware:
     structs must equal the ideal contents and the number of live blocks must equal the block
     count of the ideal contents."""
     ENOMEM_RES = {
-        "put": "false ENOMEM", "putstr": "false ENOMEM", "putstrf": "false ENOMEM", "putint": "false ENOMEM",
+        "put": "false ENOMEM", "putalias": "false ENOMEM", "putkeyalias": "false ENOMEM", "putstr": "false ENOMEM", "putstrf": "false ENOMEM", "putint": "false ENOMEM",
         "get": "null ENOMEM", "getstr": "null ENOMEM", "getint": "int 0 ENOMEM", "getmulti": "null ENOMEM 0",
         "next": "false ENOMEM", "nextn": "false ENOMEM", "new": "null ENOMEM ctorlive=0",
         "load": "loaded -1 ENOMEM", "save": "false ENOMEM",
@@ -291,14 +291,16 @@ def hash_streams(check, prop):
                     pre.append(kop("rm", ks[0]))
                 prefixes.append(pre)
             observe = ["size", "walk 0"] + [kop("get", k, "0") for k in keys[:3] + [fresh]]
+            tsflag = " 1" if r == 3 else ""       # the middle range runs on a QHASHTBL_THREADSAFE table: ENOMEM / ENOENT survive the unlock
             for pre in prefixes:
                 targets = [kop("put", fresh, hexs(b"nv")), kop("put", fresh, "-"), kop("put", keys[0], hexs(b"replaced")),
                            kop("putstr", keys[1], hexs(b"str")), kop("putint", fresh, "-42"), kop("putstrf", fresh, hexs(b"fmt")),
                            kop("putstrf", keys[0], hexs(b"y" * 1030)), kop("get", keys[0], "1"),
-                           kop("get", keys[1], "0"), kop("getstr", keys[0]), kop("getint", keys[1]), kop("rm", keys[0]), "next 1"]
+                           kop("get", keys[1], "0"), kop("getstr", keys[0]), kop("getint", keys[1]), kop("rm", keys[0]), "next 1",
+                           kop("putalias", keys[0], "0", "1", "2"), kop("putalias", keys[1], "3", "0", "0"), kop("putkeyalias", keys[0], "0", "6b61")]
                 for t in targets:
                     for arm in ARMS:
-                        ops += ["new %d" % r] + pre + ["reset", arm, t] + observe
+                        ops += ["new %d%s" % (r, tsflag)] + pre + ["reset", arm, t] + observe
                 # constructor (plain and thread-safe)
                 for arm in ARMS:
                     for ts in "01":
@@ -306,7 +308,7 @@ def hash_streams(check, prop):
                 # step-wise walks with a failure inside the j-th call, retried until the end
                 for j in range(0, len(pre) + 1):
                     for arm in ("fault 1", "fault 2", "faultfrom 1"):
-                        ops += ["new %d" % r] + pre + ["reset"] + ["next 1"] * j + [arm] + ["next 1"] * (len(pre) + 3) + observe
+                        ops += ["new %d%s" % (r, tsflag)] + pre + ["reset"] + ["next 1"] * j + [arm] + ["next 1"] * (len(pre) + 3) + observe
             ops.append("end")
         sts.append(S("fault-enumeration", ops))
         # distinct names with identical 32-bit hash: the deeper key (both insertion orders) under every failure
@@ -350,7 +352,9 @@ def hash_streams(check, prop):
                                        kop("putstrf", k, hexs(v.replace(b"\0", b"z") * rng.choice([1, 1, 300]))),
                                        kop("putint", k, str(rng.randrange(-99, 99))), kop("get", k, "1"), kop("get", k, "0"),
                                        kop("getstr", k), kop("getint", k), kop("rm", k), "next 1", "next 0", "reset", "size",
-                                       "walk 1", "new %d %s" % (r, rng.choice("01")), "inv", "lock"]))
+                                       "walk 1", "new %d %s" % (r, rng.choice("01")), "inv", "lock", "debug",
+                                       kop("putalias", k, rng.choice("0123"), str(rng.randrange(4)), str(rng.randrange(4))),
+                                       kop("putkeyalias", k, str(rng.randrange(2)), "6b61")]))
             ops += ["walk 0", "inv", "end"]
         sts.append(S("random-faults", ops))
     else:
@@ -370,7 +374,10 @@ def hash_streams(check, prop):
                                        kop("putstrf", k, hexs(v.replace(b"\0", b"z") * rng.choice([1, 1, 100]))),
                                        kop("putint", k, str(rng.randrange(-10 ** 6, 10 ** 6))), kop("get", k, "1"), kop("get", k, "1"),
                                        kop("get", k, "0"), kop("getstr", k), kop("getint", k), kop("rm", k), kop("rm", k),
-                                       "next 1", "next 1", "reset", "size", "walk 1", "inv", "lock", "clear"][:22 if rng.random() < 0.9 else 23]))
+                                       "next 1", "next 1", "reset", "size", "walk 1", "inv", "lock", "debug",
+                                       kop("putalias", k, rng.choice("0123"), str(rng.randrange(5)), str(rng.randrange(5))),
+                                       kop("putalias", k, "2", "0", "1"), kop("putkeyalias", k, str(rng.randrange(3)), "6b61"),
+                                       "clear"][:26 if rng.random() < 0.9 else 27]))
             ops += ["walk 1", "inv", "end"]
         sts.append(S("random-histories", ops))
         # distinct names with identical 32-bit hash (both insertion orders); putstrf around the buffer sizes
@@ -435,6 +442,7 @@ def list_streams(check, prop):
                            kop("putint", b"b", "7"), kop("putstrf", b"a", hexs(b"fmt")), kop("putstrf", b"c", hexs(b"y" * 2050)), kop("put", b"a", "-"), kop("get", b"a", "1"), kop("getstr", b"a"), kop("getint", b"b"),
                            kop("getmulti", b"a", "1"), kop("getmulti", b"a", "2"), kop("getmulti", b"a", "0"), kop("rm", b"a"), "sort",
                            "next 1", nkey("nextn", b"a", "1"), "save 3d 1", "save 3d 0",
+                           kop("putalias", b"a", "0", "0", "1"), kop("putalias", b"A", "2", "1", "1"), kop("putkeyalias", b"a", "0", "6b61"),
                            "load %s 3d 1" % hexs(files[0]), "load %s 3d 0" % hexs(files[1])]
                 arms = ARMS
                 if many:
@@ -507,7 +515,9 @@ def list_streams(check, prop):
                                        kop("getmulti", k, rng.choice("012")), kop("rm", k), "next 1", "next 0", nkey("nextn", k, "1"),
                                        "reset", "rmobj", "size", "sort", "walk 1", "save 3d 1",
                                        "load %s 3d %s" % (hexs(rng.choice(files)), rng.choice("01")),
-                                       "new %s %s" % (o, rng.choice("01")), "inv", "lock", "walkrmc %d" % rng.getrandbits(5)]))
+                                       "new %s %s" % (o, rng.choice("01")), "inv", "lock", "walkrmc %d" % rng.getrandbits(5), "debug",
+                                       kop("putalias", k, rng.choice("0123"), str(rng.randrange(4)), str(rng.randrange(1, 4))),
+                                       kop("putkeyalias", k, str(rng.randrange(2)), "6b61")]))
             ops += ["walk 0", "inv", "end"]
         sts.append(S("random-faults", ops))
     else:
@@ -527,7 +537,9 @@ def list_streams(check, prop):
                                        kop("getmulti", k, "0"), kop("rm", k), "next 1", "next 1", nkey("nextn", k, "1"), "rmobj",
                                        "reset", "size", "sort", "walk 1", nkey("walkn", k, "1"), "walkrm %d" % rng.getrandbits(6),
                                        "save 3d 1", "load %s 3d 1" % hexs(rng.choice(files)), "rt 3d " + o,
-                                       "inv", "lock", "walkrmc %d" % rng.getrandbits(6), "rt 3a %s 0" % o]))
+                                       "inv", "lock", "walkrmc %d" % rng.getrandbits(6), "rt 3a %s 0" % o, "debug",
+                                       kop("putalias", k, rng.choice("0123"), str(rng.randrange(5)), str(rng.randrange(1, 5))),
+                                       kop("putalias", k, "0", "0", "1"), kop("putkeyalias", k, str(rng.randrange(3)), "6b61")]))
             ops += ["walk 1", "inv", "end"]
         sts.append(S("random-histories", ops))
         # distinct names with identical 32-bit hash in descending order, sorted; putstrf around the buffer sizes
